@@ -29,6 +29,7 @@ pub mod c27;
 pub mod c28;
 pub mod c29;
 pub mod c31;
+pub mod c32;
 pub mod c34;
 pub mod c36;
 
@@ -64,6 +65,7 @@ pub fn run(ctx: &Ctx, id: &str) -> bool {
         "C28" => c28::run(ctx),
         "C29" => c29::run(ctx),
         "C31" => c31::run(ctx),
+        "C32" => c32::run(ctx),
         "C34" => c34::run(ctx),
         "C36" => c36::run(ctx),
         _ => return false,
